@@ -243,6 +243,8 @@ def _leaves(t):
         return _leaves(t[2]) + _leaves(t[3])
     if t[0] == "tryret":
         return [x for r in t[2] for x in _leaves(r)]
+    if t[0] == "tryphi" and len(t) >= 4:
+        return [x for r in t[3] for x in _leaves(r)]        # a variable set in the try body / in a handler
     return [t]
 
 
